@@ -15,7 +15,7 @@ Definition mem_op (g mn mx : N) (name memname : string) : opinfo :=
 Section Sim.
 Variable gv : list Z.
 Variable tbl : list opinfo.
-Variable bodies : list (string * stmt).
+Variable bodies : list (N * (string * stmt)).
 
 Definition entry (op : N) : opinfo := nth (N.to_nat op) tbl op_dummy.
 
@@ -25,33 +25,51 @@ Record table_ok : Prop := {
   t_comp : forall op f g, comp_spec op = Some (f, g) ->
     exists name body,
       entry op = plain_op g (N.of_nat (cfun_arity f)) (1024 + N.of_nat (cfun_arity f) - 1) name /\
-      exec_stmt bodies name op = Some body /\ pc_extra name op = 0 /\ comp_correct gv body f;
-  t_stop : entry 0 = mkOp true 0 0 1024 true false false false false false false "opStop" "" "";
+      exec_stmt bodies name op = Some body /\ assigns_pc body = false /\ comp_correct gv body f;
+  t_stop : exists body,
+      entry 0 = mkOp true 0 0 1024 true false false false false false false "opStop" "" "" /\
+      exec_stmt bodies "opStop" 0 = Some body /\
+      (forall code pc c, run_body_pc code pc body c = Some (c, pc));
   t_exp : exists name body,
       entry 10 = mkOp true 0 2 1025 false false false false false true false name "gasExp" "" /\
-      exec_stmt bodies name 10 = Some body /\ pc_extra name 10 = 0 /\ comp_correct gv body (F2 spec_exp);
+      exec_stmt bodies name 10 = Some body /\ assigns_pc body = false /\ comp_correct gv body (F2 spec_exp);
   t_pop : exists name body,
-      entry 80 = plain_op 2 1 1025 name /\ exec_stmt bodies name 80 = Some body /\ pc_extra name 80 = 0 /\
+      entry 80 = plain_op 2 1 1025 name /\ exec_stmt bodies name 80 = Some body /\ assigns_pc body = false /\
       body_correct gv body (fun st _ => st <> []) (fun st m => (tl st, m));
   t_mload : exists name body,
-      entry 81 = mem_op 3 1 1024 name "memoryMLoad" /\ exec_stmt bodies name 81 = Some body /\ pc_extra name 81 = 0 /\
+      entry 81 = mem_op 3 1 1024 name "memoryMLoad" /\ exec_stmt bodies name 81 = Some body /\ assigns_pc body = false /\
       body_correct gv body (mem_pre 32 1)
         (fun st m => (be_to_Z (firstn 32 (skipn (Z.to_nat (hd 0%Z st)) m)) :: tl st, m));
   t_mstore : exists name body,
-      entry 82 = mem_op 3 2 1026 name "memoryMStore" /\ exec_stmt bodies name 82 = Some body /\ pc_extra name 82 = 0 /\
+      entry 82 = mem_op 3 2 1026 name "memoryMStore" /\ exec_stmt bodies name 82 = Some body /\ assigns_pc body = false /\
       body_correct gv body (mem_pre 32 2)
         (fun st m => (tl (tl st), mem_write m (Z.to_nat (hd 0%Z st)) (be_bytes 32 (hd 0%Z (tl st)))));
   t_mstore8 : exists name body,
-      entry 83 = mem_op 3 2 1026 name "memoryMStore8" /\ exec_stmt bodies name 83 = Some body /\ pc_extra name 83 = 0 /\
+      entry 83 = mem_op 3 2 1026 name "memoryMStore8" /\ exec_stmt bodies name 83 = Some body /\ assigns_pc body = false /\
       body_correct gv body (mem_pre 1 2)
         (fun st m => (tl (tl st), mem_write m (Z.to_nat (hd 0%Z st)) [Z.to_N (hd 0%Z (tl st) mod 256)]));
+  t_sload : exists name body,
+      entry 84 = plain_op 800 1 1024 name /\ exec_stmt bodies name 84 = Some body /\ assigns_pc body = false /\
+      sload_correct gv body;
+  t_sstore : exists name body,
+      entry 85 = mkOp true 0 2 1026 false false true false false true false name "gasSStoreEIP2200" "" /\
+      exec_stmt bodies name 85 = Some body /\ assigns_pc body = false /\ sstore_correct gv body;
   t_msize : exists name body,
-      entry 89 = plain_op 2 0 1023 name /\ exec_stmt bodies name 89 = Some body /\ pc_extra name 89 = 0 /\
+      entry 89 = plain_op 2 0 1023 name /\ exec_stmt bodies name 89 = Some body /\ assigns_pc body = false /\
       body_correct gv body (fun _ m => (Z.of_nat (length m) < tt63)%Z)
         (fun st m => (Z.of_nat (length m) :: st, m));
-  t_push : forall op, 96 <= op <= 127 -> entry op = plain_op 3 0 1023 "makePush";
-  t_dup : forall op, 128 <= op <= 143 -> entry op = plain_op 3 (op - 127) 1023 "makeDup";
-  t_swap : forall op, 144 <= op <= 159 -> entry op = plain_op 3 (op - 143 + 1) 1024 "makeSwap";
+  t_push : forall op, 96 <= op <= 127 -> exists body,
+      entry op = plain_op 3 0 1023 "makePush" /\ exec_stmt bodies "makePush" op = Some body /\
+      (forall code pc c, pc < 8589934592 -> N.of_nat (length code) < 4294967296 ->
+         run_body_pc code pc body c = Some (push_sem code pc (op - 95) c, pc + (op - 95)));
+  t_dup : forall op, 128 <= op <= 143 -> exists body,
+      entry op = plain_op 3 (op - 127) 1023 "makeDup" /\ exec_stmt bodies "makeDup" op = Some body /\
+      assigns_pc body = false /\
+      (forall code pc c, (length (stack c) <= 1024)%nat -> run_body code pc body c = dup_sem (op - 127) c);
+  t_swap : forall op, 144 <= op <= 159 -> exists body,
+      entry op = plain_op 3 (op - 143 + 1) 1024 "makeSwap" /\ exec_stmt bodies "makeSwap" op = Some body /\
+      assigns_pc body = false /\
+      (forall code pc c, (length (stack c) <= 1024)%nat -> run_body code pc body c = swap_sem (op - 143 + 1) c);
   t_invalid : forall op, spec_unassigned op = true -> o_valid (entry op) = false
 }.
 
@@ -65,17 +83,20 @@ Hypothesis HG0 : G0 < gas_bound.
 
 Variable code : list N.
 Hypothesis Hcode : bytes_ok code.
+Hypothesis Hcodelen : N.of_nat (length code) < 4294967296.
 
 Record WFI (s : istate) : Prop := mkWFI {
   wfi_cfg : WF gv (i_cfg s);
   wfi_depth : (length (stack (i_cfg s)) <= 1024)%nat;
   wfi_mem32 : N.of_nat (length (mem (i_cfg s))) mod 32 = 0;
   wfi_cost : i_memcost s = cmem_cost (mem_words (mem (i_cfg s)));
-  wfi_gas : i_gas s + i_memcost s <= G0
+  wfi_gas : i_gas s + i_memcost s <= G0;
+  wfi_stor : stor_ok (stor (i_cfg s));
+  wfi_pc : i_pc s <= N.of_nat (length code) + 33
 }.
 
 Definition abs (s : istate) : pstate :=
-  mkP (svals (i_cfg s)) (mem (i_cfg s)) (i_pc s) (i_gas s).
+  mkP (svals (i_cfg s)) (mem (i_cfg s)) (i_pc s) (i_gas s) (stor (i_cfg s)).
 
 (* how results of the two machines correspond *)
 Definition res_rel (r : result) (p : presult) : Prop :=
@@ -94,6 +115,15 @@ Proof. intros H. unfold fail. eexists _, _. split; [reflexivity|]. split; [exact
 
 Lemma ltb_0_r x : (x <? 0) = false. Proof. apply N.ltb_ge. lia. Qed.
 
+(* an opcode other than 0 is read inside the code *)
+Lemma get_op_inside pc : get_op code pc <> 0 -> pc < N.of_nat (length code).
+Proof.
+  unfold get_op. intros H. destruct (N.ltb_spec pc (N.of_nat (length code))) as [|Hge]; [assumption|].
+  rewrite nth_overflow in H by lia. congruence.
+Qed.
+Lemma comp_spec_nonzero op f g : comp_spec op = Some (f, g) -> op <> 0.
+Proof. intros H ->. discriminate. Qed.
+
 (* ---- one step of an opcode without dynamic gas or memory ----------------------------- *)
 Lemma step_plain s g mn mx name body :
   entry (get_op code (i_pc s)) = plain_op g mn mx name ->
@@ -102,9 +132,9 @@ Lemma step_plain s g mn mx name body :
     (if N.of_nat (length (stack (i_cfg s))) <? mn then fail st_underflow s
      else if mx <? N.of_nat (length (stack (i_cfg s))) then fail st_overflow s
      else if i_gas s <? g then fail st_oog s
-     else match run_body code (i_pc s) body (i_cfg s) with
+     else match run_body_pc code (i_pc s) body (i_cfg s) with
           | None => fail st_crash s
-          | Some c2 => Next (mkI c2 (i_pc s + pc_extra name (get_op code (i_pc s)) + 1) (i_gas s - g) (i_memcost s))
+          | Some (c2, pc') => Next (mkI c2 (pc' + 1) (i_gas s - g) (i_memcost s))
           end).
 Proof.
   intros He Hx. unfold step. fold (entry (get_op code (i_pc s))). rewrite He.
@@ -117,7 +147,7 @@ Qed.
 Lemma spec_apply_ok p d a g adv f st m :
   (d <= length (p_stack p))%nat -> (length (p_stack p) - d + a <= 1024)%nat -> g <= p_gas p ->
   f tt = Some (st, m) ->
-  spec_apply p d a g adv f = PNext (mkP st m (p_pc p + adv) (p_gas p - g)).
+  spec_apply p d a g adv f = PNext (mkP st m (p_pc p + adv) (p_gas p - g) (p_stor p)).
 Proof.
   intros H1 H2 H3 Hf. unfold spec_apply.
   replace (length (p_stack p) <? d)%nat with false by lia.
@@ -150,7 +180,7 @@ Lemma sim_comp s f g : WFI s -> comp_spec (get_op code (i_pc s)) = Some (f, g) -
           (spec_apply (abs s) (cfun_arity f) 1%nat g 1
              (fun _ => match cfun_apply f (p_stack (abs s)) with Some st' => Some (st', p_mem (abs s)) | None => None end)).
 Proof.
-  intros [Hwf Hdep Hm32 Hcost Hgas] Hc.
+  intros [Hwf Hdep Hm32 Hcost Hgas Hstor Hpcb] Hc.
   destruct (t_comp Htbl _ _ _ Hc) as (name & body & He & Hx & Hpx & Hok).
   rewrite (step_plain s _ _ _ _ _ He Hx). pose proof (cfun_arity_pos f) as Har.
   unfold abs; cbn [p_stack p_mem p_gas p_pc]. pose proof (svals_length (i_cfg s)) as Hl.
@@ -160,15 +190,19 @@ Proof.
   destruct (i_gas s <? g) eqn:E3.
   { rewrite spec_apply_exc by (cbn [p_gas]; lia). apply fail_exc. discriminate. }
   destruct (cfun_apply_some f (svals (i_cfg s)) ltac:(lia)) as (st' & Hst' & Hlen').
-  destruct (Hok code (i_pc s) (i_cfg s) st' Hwf Hst') as (c' & Hrun & Hwf' & Hsv & Hmem).
-  rewrite Hrun. erewrite spec_apply_ok; cbn [p_stack p_gas p_pc]; [| lia | lia | lia | rewrite Hst'; reflexivity].
+  destruct (Hok code (i_pc s) (i_cfg s) st' Hwf Hst') as (c' & Hrun & Hwf' & Hsv & Hmem & Hst).
+  rewrite (run_body_keeps_pc _ _ _ _ _ Hpx Hrun).
+  erewrite spec_apply_ok; cbn [p_stack p_gas p_pc p_stor]; [| lia | lia | lia | rewrite Hst'; reflexivity].
+  pose proof (get_op_inside _ (comp_spec_nonzero _ _ _ Hc)) as Hin.
   eexists. split; [reflexivity|]. split.
-  - constructor; cbn [i_cfg i_gas i_memcost]; try assumption.
+  - constructor; cbn [i_cfg i_gas i_memcost i_pc]; try assumption.
     + rewrite <- svals_length, Hsv, Hlen'. lia.
     + rewrite Hmem. exact Hm32.
     + rewrite Hmem. exact Hcost.
     + lia.
-  - unfold abs. cbn [i_cfg i_pc i_gas]. rewrite Hsv, Hmem, Hpx. f_equal. lia.
+    + rewrite Hst. exact Hstor.
+    + lia.
+  - unfold abs. cbn [i_cfg i_pc i_gas]. rewrite Hsv, Hmem, Hst. reflexivity.
 Qed.
 
 (* generic frame for the opcodes without dynamic gas: a body whose effect on
@@ -177,15 +211,16 @@ Lemma sim_plain s g (d a : nat) name body adv st' m' :
   WFI s -> (a <= S d)%nat ->
   entry (get_op code (i_pc s)) = plain_op g (N.of_nat d) (1024 + N.of_nat d - N.of_nat a) name ->
   exec_stmt bodies name (get_op code (i_pc s)) = Some body ->
-  pc_extra name (get_op code (i_pc s)) + 1 = adv ->
+  1 <= adv <= 33 -> get_op code (i_pc s) <> 0 ->
   ((d <= length (svals (i_cfg s)))%nat ->
-     exists c', run_body code (i_pc s) body (i_cfg s) = Some c' /\ WF gv c' /\
+     exists c', run_body_pc code (i_pc s) body (i_cfg s) = Some (c', i_pc s + adv - 1) /\ WF gv c' /\
                 svals c' = st' /\ mem c' = m' /\ mem c' = mem (i_cfg s) /\
+                stor c' = stor (i_cfg s) /\
                 length st' = (length (svals (i_cfg s)) - d + a)%nat) ->
   forall f, ((d <= length (svals (i_cfg s)))%nat -> f tt = Some (st', m')) ->
   res_rel (step tbl bodies code s) (spec_apply (abs s) d a g adv f).
 Proof.
-  intros [Hwf Hdep Hm32 Hcost Hgas] Hda He Hx Hadv Hbody f Hf.
+  intros [Hwf Hdep Hm32 Hcost Hgas Hstor Hpcb] Hda He Hx Hadv Hop0 Hbody f Hf.
   rewrite (step_plain s _ _ _ _ _ He Hx).
   unfold abs. pose proof (svals_length (i_cfg s)) as Hl.
   destruct (N.of_nat (length (stack (i_cfg s))) <? N.of_nat d) eqn:E1.
@@ -194,23 +229,25 @@ Proof.
   { rewrite spec_apply_exc by (cbn [p_stack]; lia). apply fail_exc. discriminate. }
   destruct (i_gas s <? g) eqn:E3.
   { rewrite spec_apply_exc by (cbn [p_gas]; lia). apply fail_exc. discriminate. }
-  destruct (Hbody ltac:(lia)) as (c' & Hrun & Hwf' & Hsv & Hmem & Hmem0 & Hlen').
-  rewrite Hrun. erewrite spec_apply_ok; cbn [p_stack p_gas p_pc]; [| lia | lia | lia | apply Hf; lia].
+  destruct (Hbody ltac:(lia)) as (c' & Hrun & Hwf' & Hsv & Hmem & Hmem0 & Hst & Hlen').
+  rewrite Hrun. erewrite spec_apply_ok; cbn [p_stack p_gas p_pc p_stor]; [| lia | lia | lia | apply Hf; lia].
+  pose proof (get_op_inside _ Hop0) as Hin.
   eexists. split; [reflexivity|]. split.
-  - constructor; cbn [i_cfg i_gas i_memcost]; try assumption.
+  - constructor; cbn [i_cfg i_gas i_memcost i_pc]; try assumption.
     + rewrite <- svals_length, Hsv, Hlen'. lia.
     + rewrite Hmem0. exact Hm32.
     + rewrite Hmem0. exact Hcost.
     + lia.
-  - unfold abs. cbn [i_cfg i_pc i_gas]. rewrite Hsv, Hmem. f_equal. lia.
+    + rewrite Hst. exact Hstor.
+    + lia.
+  - unfold abs. cbn [i_cfg i_pc i_gas]. rewrite Hsv, Hmem, Hst. f_equal; lia.
 Qed.
 
-Lemma exec_push op : 96 <= op <= 127 -> exec_stmt bodies "makePush" op = Some (SPushCode (op - 95)).
-Proof. intros H. unfold exec_stmt. cbn [String.eqb Ascii.eqb Bool.eqb]. replace ((96 <=? op) && (op <=? 127))%bool with true by lia. reflexivity. Qed.
-Lemma exec_dup op : 128 <= op <= 143 -> exec_stmt bodies "makeDup" op = Some (SDup (op - 127)).
-Proof. intros H. unfold exec_stmt. cbn [String.eqb Ascii.eqb Bool.eqb]. replace ((128 <=? op) && (op <=? 143))%bool with true by lia. reflexivity. Qed.
-Lemma exec_swap op : 144 <= op <= 159 -> exec_stmt bodies "makeSwap" op = Some (SSwap (op - 143 + 1)).
-Proof. intros H. unfold exec_stmt. cbn [String.eqb Ascii.eqb Bool.eqb]. replace ((144 <=? op) && (op <=? 159))%bool with true by lia. reflexivity. Qed.
+(* a body that keeps *pc, given by its effect through run_body *)
+Lemma keeps_pc_plain s body c' : assigns_pc body = false ->
+  run_body code (i_pc s) body (i_cfg s) = Some c' ->
+  run_body_pc code (i_pc s) body (i_cfg s) = Some (c', i_pc s + 1 - 1).
+Proof. intros Ha Hr. rewrite (run_body_keeps_pc _ _ _ _ _ Ha Hr). f_equal. f_equal. lia. Qed.
 
 Lemma sim_push s : WFI s -> 96 <= get_op code (i_pc s) <= 127 ->
   let n := get_op code (i_pc s) - 95 in
@@ -218,14 +255,14 @@ Lemma sim_push s : WFI s -> 96 <= get_op code (i_pc s) <= 127 ->
     (spec_apply (abs s) 0%nat 1%nat 3 (n + 1)
        (fun _ => Some (be_to_Z (push_bytes code (p_pc (abs s)) n) :: p_stack (abs s), p_mem (abs s)))).
 Proof.
-  intros Hs Hop n. pose proof Hs as [Hwf _ _ _ _].
-  destruct (push_correct gv code (i_pc s) n (i_cfg s) Hcode ltac:(lia) Hwf) as (c' & Hrun & Hwf' & Hsv & Hmem).
-  eapply (sim_plain s 3 0%nat 1%nat "makePush"); try eassumption; [lia| | | | |].
-  - rewrite (t_push Htbl _ Hop). reflexivity.
-  - apply exec_push, Hop.
-  - unfold pc_extra. cbn [String.eqb Ascii.eqb Bool.eqb]. subst n. lia.
-  - intros _. exists c'. split; [exact Hrun|]. split; [exact Hwf'|]. split; [exact Hsv|].
-    split; [reflexivity|]. split; [exact Hmem|]. cbn [length]. lia.
+  intros Hs Hop n. pose proof Hs as [Hwf Hdep _ _ _ Hstor Hpcb].
+  destruct (t_push Htbl _ Hop) as (body & He & Hx & Hrunpc).
+  destruct (push_correct gv code (i_pc s) n (i_cfg s) Hcode ltac:(subst n; lia) Hwf) as (c' & Hrun & Hwf' & Hsv & Hmem & Hst).
+  eapply (sim_plain s 3 0%nat 1%nat "makePush" body); try eassumption; [lia|subst n; lia|lia| |].
+  - intros _. exists c'. split.
+    { rewrite Hrunpc by lia. fold n. rewrite Hrun. f_equal. f_equal. lia. }
+    split; [exact Hwf'|]. split; [exact Hsv|].
+    split; [reflexivity|]. split; [exact Hmem|]. split; [exact Hst|]. cbn [length]. lia.
   - intros _. unfold abs. cbn [p_pc p_stack p_mem]. rewrite Hmem. reflexivity.
 Qed.
 
@@ -236,26 +273,24 @@ Lemma sim_dup s : WFI s -> 128 <= get_op code (i_pc s) <= 143 ->
        (fun _ => match nth_error (p_stack (abs s)) (n - 1) with
                  | Some x => Some (x :: p_stack (abs s), p_mem (abs s)) | None => None end)).
 Proof.
-  intros Hs Hop n. pose proof Hs as [Hwf _ _ _ _].
+  intros Hs Hop n. pose proof Hs as [Hwf Hdep _ _ _ Hstor Hpcb].
   assert (Hn : (1 <= n <= 16)%nat) by (subst n; lia).
+  destruct (t_dup Htbl _ Hop) as (body & He & Hx & Hkp & Hsem).
+  assert (He' : entry (get_op code (i_pc s)) = plain_op 3 (N.of_nat n) (1024 + N.of_nat n - N.of_nat (S n)) "makeDup")
+    by (rewrite He; f_equal; subst n; lia).
   destruct (nth_error (svals (i_cfg s)) (n - 1)) as [x|] eqn:Ex.
-  - destruct (dup_correct gv code (i_pc s) (n - 1) (i_cfg s) x Hwf Ex) as (c' & Hrun & Hwf' & Hsv & Hmem).
-    eapply (sim_plain s 3 n (S n) "makeDup" _ 1); try eassumption; [lia| | | | |].
-    + rewrite (t_dup Htbl _ Hop). f_equal; subst n; lia.
-    + apply exec_dup, Hop.
-    + reflexivity.
+  - destruct (dup_correct gv (n - 1) (i_cfg s) x Hwf Ex) as (c' & Hrun & Hwf' & Hsv & Hmem & Hst).
+    replace (N.of_nat (S (n - 1))) with (get_op code (i_pc s) - 127) in Hrun by (subst n; lia).
+    eapply (sim_plain s 3 n (S n) "makeDup" body 1); try eassumption; [lia|lia|lia| |].
     + intros _. exists c'. split.
-      { replace (get_op code (i_pc s) - 127) with (N.of_nat (S (n - 1))) by (subst n; lia). exact Hrun. }
-      split; [exact Hwf'|]. split; [exact Hsv|]. split; [reflexivity|]. split; [exact Hmem|].
+      { apply keeps_pc_plain; [exact Hkp|]. rewrite Hsem by exact Hdep. exact Hrun. }
+      split; [exact Hwf'|]. split; [exact Hsv|]. split; [reflexivity|]. split; [exact Hmem|]. split; [exact Hst|].
       assert (n - 1 < length (svals (i_cfg s)))%nat by (apply nth_error_Some; congruence).
       cbn [length]. lia.
     + intros _. unfold abs. cbn [p_stack p_mem]. rewrite Ex, Hmem. reflexivity.
   - (* fewer than n items: both machines fail *)
     apply nth_error_None in Ex.
-    eapply (sim_plain s 3 n (S n) "makeDup" (SDup (get_op code (i_pc s) - 127)) 1 [] []); try eassumption; [lia| | | | |].
-    + rewrite (t_dup Htbl _ Hop). f_equal; subst n; lia.
-    + apply exec_dup, Hop.
-    + reflexivity.
+    eapply (sim_plain s 3 n (S n) "makeDup" body 1 [] []); try eassumption; [lia|lia|lia| |].
     + intros Hd. lia.
     + intros Hd. lia.
 Qed.
@@ -271,33 +306,28 @@ Lemma sim_swap s : WFI s -> 144 <= get_op code (i_pc s) <= 159 ->
                  | [] => None
                  end)).
 Proof.
-  intros Hs Hop n. pose proof Hs as [Hwf _ _ _ _].
+  intros Hs Hop n. pose proof Hs as [Hwf Hdep _ _ _ Hstor Hpcb].
   assert (Hn : (1 <= n <= 16)%nat) by (subst n; lia).
+  destruct (t_swap Htbl _ Hop) as (body & He & Hx & Hkp & Hsem).
+  assert (He' : entry (get_op code (i_pc s)) = plain_op 3 (N.of_nat (S n)) (1024 + N.of_nat (S n) - N.of_nat (S n)) "makeSwap")
+    by (rewrite He; f_equal; subst n; lia).
   destruct (svals (i_cfg s)) as [|a r] eqn:Est.
-  - eapply (sim_plain s 3 (S n) (S n) "makeSwap" (SSwap (get_op code (i_pc s) - 143 + 1)) 1 [] []); try eassumption; [lia| | | | |].
-    + rewrite (t_swap Htbl _ Hop). f_equal; subst n; lia.
-    + apply exec_swap, Hop.
-    + reflexivity.
+  - eapply (sim_plain s 3 (S n) (S n) "makeSwap" body 1 [] []); try eassumption; [lia|lia|lia| |].
     + rewrite Est. cbn. lia.
     + rewrite Est. cbn. lia.
   - destruct (nth_error r (n - 1)) as [b|] eqn:Eb.
-    + destruct (swap_correct gv code (i_pc s) (n - 1) (i_cfg s) a r b Hwf Est Eb) as (c' & Hrun & Hwf' & Hsv & Hmem).
-      eapply (sim_plain s 3 (S n) (S n) "makeSwap" _ 1); try eassumption; [lia| | | | |].
-      * rewrite (t_swap Htbl _ Hop). f_equal; subst n; lia.
-      * apply exec_swap, Hop.
-      * reflexivity.
+    + destruct (swap_correct gv (n - 1) (i_cfg s) a r b Hwf Est Eb) as (c' & Hrun & Hwf' & Hsv & Hmem & Hst).
+      replace (N.of_nat (S (S (n - 1)))) with (get_op code (i_pc s) - 143 + 1) in Hrun by (subst n; lia).
+      eapply (sim_plain s 3 (S n) (S n) "makeSwap" body 1); try eassumption; [lia|lia|lia| |].
       * intros _. exists c'. split.
-        { replace (get_op code (i_pc s) - 143 + 1) with (N.of_nat (S (S (n - 1)))) by (subst n; lia). exact Hrun. }
-        split; [exact Hwf'|]. split; [exact Hsv|]. split; [reflexivity|]. split; [exact Hmem|].
+        { apply keeps_pc_plain; [exact Hkp|]. rewrite Hsem by exact Hdep. exact Hrun. }
+        split; [exact Hwf'|]. split; [exact Hsv|]. split; [reflexivity|]. split; [exact Hmem|]. split; [exact Hst|].
         rewrite Est. cbn [length]. rewrite app_length. cbn [length]. rewrite firstn_length, skipn_length.
         assert (n - 1 < length r)%nat by (apply nth_error_Some; congruence). lia.
       * intros _. unfold abs. cbn [p_stack p_mem]. rewrite Est, Eb, Hmem.
         replace (S (n - 1)) with n by lia. reflexivity.
     + apply nth_error_None in Eb.
-      eapply (sim_plain s 3 (S n) (S n) "makeSwap" (SSwap (get_op code (i_pc s) - 143 + 1)) 1 [] []); try eassumption; [lia| | | | |].
-      * rewrite (t_swap Htbl _ Hop). f_equal; subst n; lia.
-      * apply exec_swap, Hop.
-      * reflexivity.
+      eapply (sim_plain s 3 (S n) (S n) "makeSwap" body 1 [] []); try eassumption; [lia|lia|lia| |].
       * rewrite Est. cbn [length]. lia.
       * rewrite Est. cbn [length]. lia.
 Qed.
@@ -307,19 +337,17 @@ Lemma sim_pop s : WFI s -> get_op code (i_pc s) = 80 ->
     (spec_apply (abs s) 1%nat 0%nat 2 1
        (fun _ => match p_stack (abs s) with _ :: r => Some (r, p_mem (abs s)) | [] => None end)).
 Proof.
-  intros Hs Hop. pose proof Hs as [Hwf _ _ _ _].
+  intros Hs Hop. pose proof Hs as [Hwf Hdep _ _ _ Hstor Hpcb].
   destruct (t_pop Htbl) as (name & body & He & Hx & Hpx & Hok).
   destruct (svals (i_cfg s)) as [|a r] eqn:Est.
-  - eapply (sim_plain s 2 1%nat 0%nat name body 1 [] []); try eassumption; [lia| | | | |]; rewrite ?Hop; try assumption.
-    + rewrite Hpx. reflexivity.
+  - eapply (sim_plain s 2 1%nat 0%nat name body 1 [] []); try eassumption; rewrite ?Hop; try assumption; try lia; try discriminate.
     + rewrite Est. cbn. lia.
     + rewrite Est. cbn. lia.
-  - destruct (Hok code (i_pc s) (i_cfg s) Hwf ltac:(rewrite Est; discriminate)) as (c' & Hrun & Hwf' & Hres).
+  - destruct (Hok code (i_pc s) (i_cfg s) Hwf ltac:(rewrite Est; discriminate)) as (c' & Hrun & Hwf' & Hres & Hst).
     rewrite Est in Hres. cbn [tl] in Hres. injection Hres as Hsv Hmem.
-    eapply (sim_plain s 2 1%nat 0%nat name body 1); try eassumption; [lia| | | | |]; rewrite ?Hop; try assumption.
-    + rewrite Hpx. reflexivity.
-    + intros _. exists c'. split; [exact Hrun|]. split; [exact Hwf'|]. split; [exact Hsv|].
-      split; [reflexivity|]. split; [exact Hmem|]. rewrite Est. cbn [length]. lia.
+    eapply (sim_plain s 2 1%nat 0%nat name body 1); try eassumption; rewrite ?Hop; try assumption; try lia; try discriminate.
+    + intros _. exists c'. split; [apply keeps_pc_plain; [exact Hpx|exact Hrun]|]. split; [exact Hwf'|]. split; [exact Hsv|].
+      split; [reflexivity|]. split; [exact Hmem|]. split; [exact Hst|]. rewrite Est. cbn [length]. lia.
     + intros _. unfold abs. cbn [p_stack p_mem]. rewrite Est, Hmem. reflexivity.
 Qed.
 
@@ -333,7 +361,7 @@ Qed.
 
 Lemma mem_len_bound s : WFI s -> (Z.of_nat (length (mem (i_cfg s))) < 2 ^ 37)%Z.
 Proof.
-  intros [_ _ Hm32 Hcost Hgas]. pose proof (cmem_lin (mem_words (mem (i_cfg s)))) as Hl.
+  intros [_ _ Hm32 Hcost Hgas _ _]. pose proof (cmem_lin (mem_words (mem (i_cfg s)))) as Hl.
   pose proof (mem_words_len _ Hm32) as Hw. unfold gas_bound in HG0.
   assert (mem_words (mem (i_cfg s)) < 4294967296) by lia.
   change (2 ^ 37)%Z with 137438953472%Z. lia.
@@ -346,31 +374,31 @@ Lemma sim_msize s : WFI s -> get_op code (i_pc s) = 89 ->
     (spec_apply (abs s) 0%nat 1%nat 2 1
        (fun _ => Some (Z.of_N (mem_words (p_mem (abs s)) * 32) :: p_stack (abs s), p_mem (abs s)))).
 Proof.
-  intros Hs Hop. pose proof Hs as [Hwf _ Hm32 _ _].
+  intros Hs Hop. pose proof Hs as [Hwf Hdep Hm32 _ _ Hstor Hpcb].
   destruct (t_msize Htbl) as (name & body & He & Hx & Hpx & Hok).
   pose proof (mem_len_bound s Hs) as Hb. pose proof two37_lt_tt63.
-  destruct (Hok code (i_pc s) (i_cfg s) Hwf ltac:(cbv beta; lia)) as (c' & Hrun & Hwf' & Hres).
+  destruct (Hok code (i_pc s) (i_cfg s) Hwf ltac:(cbv beta; lia)) as (c' & Hrun & Hwf' & Hres & Hst).
   injection Hres as Hsv Hmem.
-  eapply (sim_plain s 2 0%nat 1%nat name body 1); try eassumption; [lia| | | | |]; rewrite ?Hop; try assumption.
-  - rewrite Hpx. reflexivity.
-  - intros _. exists c'. split; [exact Hrun|]. split; [exact Hwf'|]. split; [exact Hsv|].
-    split; [reflexivity|]. split; [exact Hmem|]. cbn [length]. lia.
+  eapply (sim_plain s 2 0%nat 1%nat name body 1); try eassumption; rewrite ?Hop; try assumption; try lia; try discriminate.
+  - intros _. exists c'. split; [apply keeps_pc_plain; [exact Hpx|exact Hrun]|]. split; [exact Hwf'|]. split; [exact Hsv|].
+    split; [reflexivity|]. split; [exact Hmem|]. split; [exact Hst|]. cbn [length]. lia.
   - intros _. unfold abs. cbn [p_stack p_mem]. rewrite Hmem, (mem_words_len _ Hm32), nat_N_Z. reflexivity.
 Qed.
 
 Lemma reclaim_abs s : abs (reclaim s) = abs s.
 Proof.
-  unfold abs, reclaim. cbn [i_cfg i_pc i_gas]. rewrite svals_pool_put, pool_put_mem. reflexivity.
+  unfold abs, reclaim. cbn [i_cfg i_pc i_gas]. rewrite svals_pool_put, pool_put_mem, pool_put_stor. reflexivity.
 Qed.
 
 Lemma sim_stop s : WFI s -> get_op code (i_pc s) = 0 ->
   res_rel (step tbl bodies code s) (PStop (abs s)).
 Proof.
-  intros Hs Hop. unfold step. fold (entry (get_op code (i_pc s))). rewrite Hop, (t_stop Htbl).
+  intros Hs Hop. destruct (t_stop Htbl) as (body & He & Hx & Hrun).
+  unfold step. fold (entry (get_op code (i_pc s))). rewrite Hop, He.
   cbn [o_valid o_gas o_min o_max o_halts o_jumps o_writes o_reverts o_returns o_dyn o_mem o_exec negb orb].
   rewrite !ltb_0_r.
   replace (1024 <? N.of_nat (length (stack (i_cfg s)))) with false by (destruct Hs; lia).
-  unfold exec_stmt. cbn [String.eqb Ascii.eqb Bool.eqb]. unfold run_body. cbn [exec].
+  rewrite Hx, Hrun.
   eexists. split; [reflexivity|]. rewrite reclaim_abs. unfold abs. cbn [i_cfg i_pc i_gas].
   rewrite !N.sub_0_r. reflexivity.
 Qed.
@@ -511,10 +539,10 @@ Lemma step_mem s g mn mx name memname body z :
   | None => exists st, st <> st_ok /\ step tbl bodies code s = fail st s
   | Some (ms, gas2, total) =>
       step tbl bodies code s =
-      match run_body code (i_pc s) body
+      match run_body_pc code (i_pc s) body
               (if 0 <? ms then set_mem (i_cfg s) (mem_resize (mem (i_cfg s)) ms) else i_cfg s) with
       | None => fail st_crash s
-      | Some c2 => Next (mkI c2 (i_pc s + pc_extra name (get_op code (i_pc s)) + 1) gas2 total)
+      | Some (c2, pc') => Next (mkI c2 (pc' + 1) gas2 total)
       end
   end.
 Proof.
@@ -544,7 +572,7 @@ Lemma sim_memop s (d a : nat) n name memname body F :
   WFI s ->
   entry (get_op code (i_pc s)) = mem_op 3 (N.of_nat d) (1024 + N.of_nat d - N.of_nat a) name memname ->
   exec_stmt bodies name (get_op code (i_pc s)) = Some body ->
-  pc_extra name (get_op code (i_pc s)) = 0 ->
+  assigns_pc body = false -> get_op code (i_pc s) <> 0 ->
   mem_size_fn memname (i_cfg s) = Some (back (i_cfg s) 0 + Z.of_N n)%Z ->
   1 <= n <= 32 -> (1 <= d)%nat -> (a <= d)%nat ->
   body_correct gv body (mem_pre (Z.of_N n) d) F ->
@@ -557,8 +585,8 @@ Lemma sim_memop s (d a : nat) n name memname body F :
      spec_apply (abs s) d a (3 + cost) 1
        (fun _ => Some (F (p_stack (abs s)) (mem_resize (p_mem (abs s)) (w' * 32))))).
 Proof.
-  intros Hs He Hx Hpx Hz Hn Hd Had Hok HlenF HmemF off r Est.
-  pose proof Hs as [Hwf Hdep Hm32 Hcost Hgas].
+  intros Hs He Hx Hpx Hop0 Hz Hn Hd Had Hok HlenF HmemF off r Est.
+  pose proof Hs as [Hwf Hdep Hm32 Hcost Hgas Hstor Hpcb].
   pose proof (svals_length (i_cfg s)) as Hl.
   assert (Hback : back (i_cfg s) 0 = off).
   { unfold back. unfold svals in Est. destruct (stack (i_cfg s)) as [|l ls]; [discriminate|].
@@ -586,7 +614,7 @@ Proof.
   replace (0 <? ms) with true in Hstep by lia.
   set (c1 := set_mem (i_cfg s) (mem_resize (mem (i_cfg s)) ms)) in *.
   assert (Hwf1 : WF gv c1).
-  { destruct Hwf as [A B C D E G]. constructor; cbn [c1 set_mem stack pool heap next mem]; try assumption.
+  { destruct Hwf as [A B C D E G]. constructor; cbn [c1 set_mem stack pool heap next mem stor]; try assumption.
     apply bytes_ok_resize, G. }
   assert (Hsv1 : svals c1 = svals (i_cfg s)) by reflexivity.
   assert (Hlen1 : N.of_nat (length (mem c1)) = w' * 32).
@@ -597,8 +625,10 @@ Proof.
   { unfold mem_pre. rewrite Hsv1, Est. cbn [hd]. split; [rewrite <- Est; lia|]. split.
     - cbn [c1 set_mem mem]. pose proof (mem_resize_length (mem (i_cfg s)) ms). lia.
     - pose proof two37_lt_tt63. change (2 ^ 37)%Z with 137438953472%Z in *. lia. }
-  destruct (Hok code (i_pc s) c1 Hwf1 Hpre) as (c' & Hrun & Hwf' & Hres').
-  rewrite Hstep, Hrun. rewrite Hsv1 in Hres'. cbn [c1 set_mem mem] in Hres'. rewrite Hres in Hres'.
+  destruct (Hok code (i_pc s) c1 Hwf1 Hpre) as (c' & Hrun & Hwf' & Hres' & Hst').
+  assert (Hst1 : stor c' = stor (i_cfg s)) by (rewrite Hst'; reflexivity).
+  rewrite Hstep, (run_body_keeps_pc _ _ _ _ _ Hpx Hrun). rewrite Hsv1 in Hres'.
+  pose proof (get_op_inside _ Hop0) as Hin. cbn [c1 set_mem mem] in Hres'. rewrite Hres in Hres'.
   pose proof (HlenF (svals (i_cfg s)) (mem_resize (mem (i_cfg s)) (w' * 32)) ltac:(lia)) as HlF.
   assert (HmF : length (snd (F (svals (i_cfg s)) (mem_resize (mem (i_cfg s)) (w' * 32)))) =
                 length (mem_resize (mem (i_cfg s)) (w' * 32))).
@@ -606,9 +636,9 @@ Proof.
     rewrite <- Hres. pose proof (mem_resize_length (mem (i_cfg s)) ms). lia. }
   destruct (F (svals (i_cfg s)) (mem_resize (mem (i_cfg s)) (w' * 32))) as [rs rm] eqn:ER.
   cbn [fst snd] in HlF, HmF. injection Hres' as Hsv' Hmem'.
-  erewrite spec_apply_ok; cbn [p_stack p_gas p_pc]; [| lia | lia | lia | reflexivity].
+  erewrite spec_apply_ok; cbn [p_stack p_gas p_pc p_stor]; [| lia | lia | lia | reflexivity].
   eexists. split; [reflexivity|]. split.
-  - constructor; cbn [i_cfg i_gas i_memcost]; try assumption.
+  - constructor; cbn [i_cfg i_gas i_memcost i_pc]; try assumption; try (rewrite Hst1; exact Hstor).
     + rewrite <- svals_length, Hsv'. lia.
     + rewrite Hmem', HmF, mem_resize_length.
       pose proof (mem_words_len _ Hm32). replace (N.max _ _) with (w' * 32) by (subst w'; lia).
@@ -617,7 +647,8 @@ Proof.
       pose proof (mem_words_len _ Hm32). replace (N.max _ _) with (w' * 32) by (subst w'; lia).
       rewrite N.div_mul by lia. reflexivity.
     + pose proof (cmem_mono (mem_words (mem (i_cfg s))) w' ltac:(subst w'; lia)). lia.
-  - unfold abs. cbn [i_cfg i_pc i_gas]. rewrite Hsv', Hmem', Hpx. f_equal; lia.
+    + lia.
+  - unfold abs. cbn [i_cfg i_pc i_gas]. rewrite Hsv', Hmem', Hst1. f_equal; lia.
 Qed.
 
 Lemma bitlen_le_256 b : inrange b -> (0 <= bitlen_of b <= 256)%Z.
@@ -631,7 +662,7 @@ Lemma sim_exp s a b r : WFI s -> get_op code (i_pc s) = 10 -> svals (i_cfg s) = 
   res_rel (step tbl bodies code s)
     (spec_apply (abs s) 2%nat 1%nat (10 + 50 * byte_len b) 1 (fun _ => Some (spec_exp a b :: r, p_mem (abs s)))).
 Proof.
-  intros Hs Hop Est. pose proof Hs as [Hwf Hdep Hm32 Hcost Hgas].
+  intros Hs Hop Est. pose proof Hs as [Hwf Hdep Hm32 Hcost Hgas Hstor Hpcb].
   destruct (t_exp Htbl) as (name & body & He & Hx & Hpx & Hok).
   pose proof (svals_length (i_cfg s)) as Hl. rewrite Est in Hl. cbn [length] in Hl.
   assert (Hb : back (i_cfg s) 1 = b /\ inrange b).
@@ -654,15 +685,81 @@ Proof.
   { rewrite spec_apply_exc by (cbn [p_gas]; lia). apply fail_exc. discriminate. }
   cbn [N.ltb N.compare]. rewrite Hx.
   destruct (Hok code (i_pc s) (i_cfg s) (spec_exp a b :: r) Hwf ltac:(rewrite Est; reflexivity))
-    as (c' & Hrun & Hwf' & Hsv & Hmem).
-  rewrite Hrun. erewrite spec_apply_ok; cbn [p_stack p_gas p_pc]; [| rewrite Est; cbn [length]; lia | rewrite Est; cbn [length]; lia | lia | reflexivity].
+    as (c' & Hrun & Hwf' & Hsv & Hmem & Hst).
+  rewrite (run_body_keeps_pc _ _ _ _ _ Hpx Hrun).
+  assert (Hin : i_pc s < N.of_nat (length code)) by (apply get_op_inside; rewrite Hop; discriminate).
+  erewrite spec_apply_ok; cbn [p_stack p_gas p_pc p_stor]; [| rewrite Est; cbn [length]; lia | rewrite Est; cbn [length]; lia | lia | reflexivity].
   eexists. split; [reflexivity|]. split.
   - constructor; cbn [i_cfg i_gas i_memcost]; try assumption.
     + rewrite <- svals_length, Hsv. cbn [length]. lia.
     + rewrite Hmem. exact Hm32.
     + rewrite Hmem. exact Hcost.
     + lia.
-  - unfold abs. cbn [i_cfg i_pc i_gas]. rewrite Hsv, Hmem, Hpx. f_equal. lia.
+    + rewrite Hst. exact Hstor.
+    + cbn [i_pc]. lia.
+  - unfold abs. cbn [i_cfg i_pc i_gas]. rewrite Hsv, Hmem, Hst. f_equal; lia.
+Qed.
+
+Lemma sim_sload s : WFI s -> get_op code (i_pc s) = 84 ->
+  res_rel (step tbl bodies code s)
+    (spec_apply (abs s) 1%nat 1%nat 800 1
+       (fun _ => match p_stack (abs s) with
+                 | k :: r => Some (st_get (p_stor (abs s)) k :: r, p_mem (abs s)) | [] => None end)).
+Proof.
+  intros Hs Hop. pose proof Hs as [Hwf Hdep _ _ _ Hstor Hpcb].
+  destruct (t_sload Htbl) as (name & body & He & Hx & Hpx & Hok).
+  destruct (svals (i_cfg s)) as [|k r] eqn:Est.
+  - eapply (sim_plain s 800 1%nat 1%nat name body 1 [] []); try eassumption; rewrite ?Hop; try assumption; try lia; try discriminate.
+    + rewrite Est. cbn. lia.
+    + rewrite Est. cbn. lia.
+  - destruct (Hok code (i_pc s) (i_cfg s) k r Hwf Hstor Est) as (c' & Hrun & Hwf' & Hsv & Hmem & Hst).
+    eapply (sim_plain s 800 1%nat 1%nat name body 1); try eassumption; rewrite ?Hop; try assumption; try lia; try discriminate.
+    + intros _. exists c'. split; [apply keeps_pc_plain; [exact Hpx|exact Hrun]|]. split; [exact Hwf'|]. split; [exact Hsv|].
+      split; [reflexivity|]. split; [exact Hmem|]. split; [exact Hst|]. rewrite Est. cbn [length]. lia.
+    + intros _. unfold abs. cbn [p_stack p_mem p_stor]. rewrite Est, Hmem. reflexivity.
+Qed.
+
+Lemma sim_sstore s k v r : WFI s -> get_op code (i_pc s) = 85 -> svals (i_cfg s) = k :: v :: r ->
+  res_rel (step tbl bodies code s)
+    (let cost := sstore_gas 0 (st_get (p_stor (abs s)) k) v in
+     if p_gas (abs s) <=? sstore_sentry then PExc
+     else if p_gas (abs s) <? cost then PExc
+     else PNext (mkP r (p_mem (abs s)) (p_pc (abs s) + 1) (p_gas (abs s) - cost) (st_set (p_stor (abs s)) k v))).
+Proof.
+  intros Hs Hop Est. pose proof Hs as [Hwf Hdep Hm32 Hcost Hgas Hstor Hpcb].
+  destruct (t_sstore Htbl) as (name & body & He & Hx & Hpx & Hok).
+  pose proof (svals_length (i_cfg s)) as Hl. rewrite Est in Hl. cbn [length] in Hl.
+  assert (Hb : back (i_cfg s) 0 = k /\ back (i_cfg s) 1 = v /\ inrange k /\ inrange v).
+  { unfold back. destruct Hwf as [_ _ Hr _ _ _]. unfold svals in Est.
+    destruct (stack (i_cfg s)) as [|l1 [|l2 ls]]; try discriminate.
+    cbn [map] in Est. injection Est as <- <- _. cbn.
+    apply Forall_cons_iff in Hr as [Hr1 Hr]. apply Forall_cons_iff in Hr as [Hr2 _]. auto. }
+  destruct Hb as (Hb0 & Hb1 & Hkr & Hvr).
+  unfold step. fold (entry (get_op code (i_pc s))). rewrite Hop, He.
+  cbn [o_valid o_gas o_min o_max o_halts o_jumps o_writes o_reverts o_returns o_dyn o_mem
+       o_exec o_dynname o_memname negb orb].
+  replace (N.of_nat (length (stack (i_cfg s))) <? 2) with false by lia.
+  replace (1026 <? N.of_nat (length (stack (i_cfg s)))) with false by lia.
+  rewrite ltb_0_r, N.sub_0_r. unfold dyn_gas_fn. cbn [String.eqb Ascii.eqb Bool.eqb].
+  rewrite Hb0, Hb1, !hash_of_big_id by assumption. unfold abs. cbn [p_gas p_stor p_mem p_pc]. cbv zeta.
+  destruct (i_gas s <=? sstore_sentry) eqn:Es.
+  { apply fail_exc. discriminate. }
+  set (cost := sstore_gas 0 (st_get (stor (i_cfg s)) k) v).
+  destruct (i_gas s <? cost) eqn:E3.
+  { apply fail_exc. discriminate. }
+  cbn [N.ltb N.compare]. rewrite Hx.
+  destruct (Hok code (i_pc s) (i_cfg s) k v r Hwf Est) as (c' & Hrun & Hwf' & Hsv & Hmem & Hst).
+  rewrite (run_body_keeps_pc _ _ _ _ _ Hpx Hrun).
+  assert (Hin : i_pc s < N.of_nat (length code)) by (apply get_op_inside; rewrite Hop; discriminate).
+  eexists. split; [reflexivity|]. split.
+  - constructor; cbn [i_cfg i_gas i_memcost]; try assumption.
+    + rewrite <- svals_length, Hsv. lia.
+    + rewrite Hmem. exact Hm32.
+    + rewrite Hmem. exact Hcost.
+    + lia.
+    + rewrite Hst. apply st_set_ok; assumption.
+    + cbn [i_pc]. lia.
+  - unfold abs. cbn [i_cfg i_pc i_gas]. rewrite Hsv, Hmem, Hst. f_equal; lia.
 Qed.
 
 Lemma sim_under s : o_valid (entry (get_op code (i_pc s))) = true ->
@@ -696,8 +793,9 @@ Proof.
   destruct (get_op code (i_pc s) =? 81) eqn:E81.
   { assert (Hop : get_op code (i_pc s) = 81) by lia.
     destruct (t_mload Htbl) as (name & body & He & Hx & Hpx & Hok).
-    rewrite <- Hop in Hx, Hpx. pose proof He as He'. rewrite <- Hop in He'.
-    pose proof (sim_memop s 1%nat 1%nat 32 name "memoryMLoad" body _ Hs He' Hx Hpx eq_refl
+    rewrite <- Hop in Hx. pose proof He as He'. rewrite <- Hop in He'.
+    assert (Hop0 : get_op code (i_pc s) <> 0) by (rewrite Hop; discriminate).
+    pose proof (sim_memop s 1%nat 1%nat 32 name "memoryMLoad" body _ Hs He' Hx Hpx Hop0 eq_refl
                   ltac:(lia) ltac:(lia) ltac:(lia) Hok) as H.
     cbv beta in H. specialize (H ltac:(intros st m Hd; destruct st; cbn in *; lia) ltac:(intros; reflexivity)).
     unfold abs in *. cbn [p_stack p_mem] in *.
@@ -707,8 +805,9 @@ Proof.
   destruct (get_op code (i_pc s) =? 82) eqn:E82.
   { assert (Hop : get_op code (i_pc s) = 82) by lia.
     destruct (t_mstore Htbl) as (name & body & He & Hx & Hpx & Hok).
-    rewrite <- Hop in Hx, Hpx. pose proof He as He'. rewrite <- Hop in He'.
-    pose proof (sim_memop s 2%nat 0%nat 32 name "memoryMStore" body _ Hs He' Hx Hpx eq_refl
+    rewrite <- Hop in Hx. pose proof He as He'. rewrite <- Hop in He'.
+    assert (Hop0 : get_op code (i_pc s) <> 0) by (rewrite Hop; discriminate).
+    pose proof (sim_memop s 2%nat 0%nat 32 name "memoryMStore" body _ Hs He' Hx Hpx Hop0 eq_refl
                   ltac:(lia) ltac:(lia) ltac:(lia) Hok) as H.
     cbv beta in H.
     specialize (H ltac:(intros st m Hd; destruct st as [|? [|? ?]]; cbn in *; lia)).
@@ -722,8 +821,9 @@ Proof.
   destruct (get_op code (i_pc s) =? 83) eqn:E83.
   { assert (Hop : get_op code (i_pc s) = 83) by lia.
     destruct (t_mstore8 Htbl) as (name & body & He & Hx & Hpx & Hok).
-    rewrite <- Hop in Hx, Hpx. pose proof He as He'. rewrite <- Hop in He'.
-    pose proof (sim_memop s 2%nat 0%nat 1 name "memoryMStore8" body _ Hs He' Hx Hpx eq_refl
+    rewrite <- Hop in Hx. pose proof He as He'. rewrite <- Hop in He'.
+    assert (Hop0 : get_op code (i_pc s) <> 0) by (rewrite Hop; discriminate).
+    pose proof (sim_memop s 2%nat 0%nat 1 name "memoryMStore8" body _ Hs He' Hx Hpx Hop0 eq_refl
                   ltac:(lia) ltac:(lia) ltac:(lia) Hok) as H.
     cbv beta in H.
     specialize (H ltac:(intros st m Hd; destruct st as [|? [|? ?]]; cbn in *; lia)).
@@ -734,6 +834,16 @@ Proof.
     - apply sim_under; rewrite Hop, He; cbn [mem_op o_valid o_min]; [reflexivity|lia].
     - apply sim_under; rewrite Hop, He; cbn [mem_op o_valid o_min]; [reflexivity|lia].
     - exact (H off (v :: r) eq_refl). }
+  destruct (get_op code (i_pc s) =? 84) eqn:E84.
+  { apply sim_sload; [exact Hs|lia]. }
+  destruct (get_op code (i_pc s) =? 85) eqn:E85.
+  { assert (Hop : get_op code (i_pc s) = 85) by lia.
+    destruct (t_sstore Htbl) as (name & body & He & _).
+    pose proof (sim_sstore s) as Hss. unfold abs in *. cbn [p_stack p_mem p_gas p_pc p_stor] in *.
+    destruct (svals (i_cfg s)) as [|k [|v r]] eqn:Est; cbn [length] in Hl.
+    - apply sim_under; rewrite Hop, He; cbn [o_valid o_min]; [reflexivity|lia].
+    - apply sim_under; rewrite Hop, He; cbn [o_valid o_min]; [reflexivity|lia].
+    - exact (Hss k v r Hs Hop eq_refl). }
   destruct (get_op code (i_pc s) =? 89) eqn:E89.
   { apply sim_msize; [exact Hs|lia]. }
   destruct ((96 <=? get_op code (i_pc s)) && (get_op code (i_pc s) <=? 127))%bool eqn:Epush.
@@ -815,6 +925,7 @@ Proof.
   - reflexivity.
   - reflexivity.
   - lia.
+  - constructor.
 Qed.
 
 End Sim.
